@@ -38,6 +38,7 @@ theorem transEvs_heap (v : Variant) (hv : v.callCopies = true) :
       | out e => simp only [transEvs]; rw [ih]
       | expr e => simp only [transEvs]; rw [ih]
       | other => simp only [transEvs]; rw [ih]
+      | execGen name x gsrc gbody => simp only [transEvs]; rw [ih]
       | incl t fb => simp only [transEvs]; rw [ih]
       | startI tag attrs => simp only [transEvs]; rw [ih]
 
@@ -81,6 +82,8 @@ theorem flat_heap (v : Variant) (hv : v.callCopies = true) :
             match t with
             | .out e => ⟨p.1.h, p.1.st, p.1.src, p.2, .ev e⟩
             | .other => ⟨p.1.h, p.1.st, p.1.src, p.2, .err .unmodelled⟩
+            | .execGen name x gsrc gbody =>
+              flat v n p.1.h { p.1.st with ctx := p.1.st.ctx.setTop name (.genfn name x gsrc gbody) } p.1.src p.2
             | .incl ti fb => ⟨p.1.h, p.1.st, p.1.src, p.2, .incl ti fb⟩
             | .startI tag attrs =>
               match evalAttrs p.1.h p.1.st.ph p.1.st.ctx.frames attrs with
@@ -97,6 +100,10 @@ theorem flat_heap (v : Variant) (hv : v.callCopies = true) :
               | .ok (.macro _) => ⟨p.1.h, p.1.st, p.1.src, p.2, .err .unmodelled⟩
               | .ok (.gen0 m) => flat v n p.1.h p.1.st p.1.src (.macroNew m none :: p.2)
               | .ok (.gen1 m a) => flat v n p.1.h p.1.st p.1.src (.macroNew m (some a) :: p.2)
+              | .ok (.genx x items gbody) => flat v n p.1.h p.1.st p.1.src (.genexp x items gbody :: p.2)
+              | .ok (.genf x gsrc gbody) => flat v n p.1.h p.1.st p.1.src (.genfNew x gsrc gbody :: p.2)
+              | .ok (.genfn _ _ _ _) => ⟨p.1.h, p.1.st, p.1.src, p.2, .err .unmodelled⟩
+              | .ok (.lam _ _) => ⟨p.1.h, p.1.st, p.1.src, p.2, .err .unmodelled⟩
             | .sub d b =>
               match readDirs p.1.h p.1.st.ph d with
               | none => ⟨p.1.h, p.1.st, p.1.src, p.2, .err .unmodelled⟩
@@ -113,6 +120,7 @@ theorem flat_heap (v : Variant) (hv : v.callCopies = true) :
       · split
         · exact hp
         · exact hp
+        · rw [ih]; exact hp
         · exact hp
         · split <;> exact hp
         · split
@@ -125,6 +133,10 @@ theorem flat_heap (v : Variant) (hv : v.callCopies = true) :
           · exact hp
           · rw [ih]; exact hp
           · rw [ih]; exact hp
+          · rw [ih]; exact hp
+          · rw [ih]; exact hp
+          · exact hp
+          · exact hp
         · split
           · exact hp
           · split
@@ -264,6 +276,7 @@ theorem extractEvs_heap (v : Variant) (hv : v.extractCopies = true) :
       | out e => simp only [extractEvs]; exact ih _ _
       | expr e => simp only [extractEvs]; exact ih _ _
       | other => simp only [extractEvs]; exact ih _ _
+      | execGen name x gsrc gbody => simp only [extractEvs]; exact ih _ _
       | incl t fb => simp only [extractEvs]; exact ih _ _
       | startI tag attrs => simp only [extractEvs]; exact ih _ _
       | sub d b =>
